@@ -27,7 +27,7 @@ ALLOWED = {"ParserSyntaxException", "ParserLabelException", "ParserOddImmediateE
            "ParserDirectiveException", "ParserDataSyntaxException", "ParserDataDuplicateException", "ParserVariableException"}
 SIZE_OK = {"MemorySizeException", "MemoryAddressError"}
 
-RV_FAULTS = ["addi x1, x0, 01", "addi x1, x0, 007", "li x1, 0x", "li x1, 0b", "lw x1, -00(x2)", "beq x1, x2, nowhere", "jal x1, nowhere+0x4",
+RV_FAULTS = ["msg: .string \"Grüße\"", "m2: .string \"日本\"", "b3: .byte 1, 2", "addi x1, x0, 01", "addi x1, x0, 007", "li x1, 0x", "li x1, 0b", "lw x1, -00(x2)", "beq x1, x2, nowhere", "jal x1, nowhere+0x4",
              "beq x1, x2, 3", "jal x1, 7", "la x1, novar", "lw x1, novar[2]", "sw x1, novar, x2", ".data", ".text", ".bss", "x: .word 1",
              "x: .byte 0400, 08", "z: .zero 09", "z: .zero " + "9" * 4400, "li x1, " + "7" * 4400, "addi x1, x0, ٣", "addi x1, x0, １２",
              "add x1, x2", "addi x1, x2, x3", "foo: foo: nop", "loop:", "loop: nop", "ecall 5", "lui x1, -", "s: .string \"abc", "s: .string 'a#b'",
